@@ -595,7 +595,7 @@ def _math(e, ctx):
 @handler("BesselFunction")
 def _bessel(e, ctx):
     nu_e, arg = e.ufl_operands
-    nu = nu_e._value
+    nu = 0 if type(nu_e).__name__ == "Zero" else nu_e._value
     if float(nu) != int(nu) or int(nu) < 0:
         raise Unsupported("non-integer Bessel order")
     kind = {"cyl_bessel_j": "J", "cyl_bessel_y": "Y", "cyl_bessel_i": "I", "cyl_bessel_k": "K"}[e._name]
@@ -982,14 +982,26 @@ def _flag_singular(ctx, m, d):
 
 @handler("Cofactor")
 def _cofactor(e, ctx):
+    """Cofactor matrix by its definition through signed minors (valid for singular matrices)."""
     a = evaluate(e.ufl_operands[0], ctx)
     d = ctx.d
     _square(a, d, "Cofactor")
     m = _mat_last(a, d)
-    _flag_singular(ctx, m, d)
-    det = J.jdet(ctx.B, m, d)
-    inv = J.jinv(ctx.B, m, d)
-    cof = J.mul(det[..., None, None], np.swapaxes(inv, -1, -2), d)
+    n = m.shape[-1]
+    if n == 1:
+        one = ctx.B.zeros(m.shape)
+        one[(0,) * d] = ctx.B.scalar(1)
+        return V(_mat_front(one, d), 2, a.fi)
+    rows = []
+    for i in range(n):
+        row = []
+        for j in range(n):
+            ri = [r for r in range(n) if r != i]
+            cj = [c for c in range(n) if c != j]
+            minor = m[..., ri, :][..., :, cj]
+            row.append(J.jdet(ctx.B, minor, d) * ((-1) ** (i + j)))
+        rows.append(np.stack(bcast(*row), axis=-1))
+    cof = np.stack(rows, axis=-2)
     return V(_mat_front(cof, d), 2, a.fi)
 
 
